@@ -54,7 +54,7 @@ def available_dispatch():
 
 def shards(tier, seed):
 	out = []
-	nw = 10 if tier == 'quick' else 40
+	nw = 16 if tier == 'quick' else 48
 	for dname, feats in available_dispatch().items():
 		for threads in ([1, 16] if tier == 'quick' else [1, 4, 16]):
 			env = {'OMP_NUM_THREADS': str(threads)}
